@@ -1,7 +1,7 @@
 // C05: UDP packets survive pack/unpack unchanged and never exceed the path MTU.
 //
-// Bounded-exhaustive enumeration over the real packers/unpackers of
-// ss2022, direct (direct / Shadowsocks none / SOCKS5) driven through the real
+// Bounded-exhaustive enumeration over the real packers/unpackers of ss2022 and
+// direct (direct / Shadowsocks none / SOCKS5), obtained through the real
 // service constructors (service.ClientConfig.UDPClient, ServerConfig.UDPRelay):
 //
 //	part A  codec round trips (client -> server and server -> client) with the
@@ -9,13 +9,20 @@
 //	part B  relay re-packing in place (uplink: server unpacker -> client packer,
 //	        downlink: client unpacker -> server packer) for every
 //	        (server protocol x client protocol) pair in the packet buffer
-//	        layout the service itself computes.
+//	        layout the service itself computes;
+//	part C  (live.go) boundary payloads through the running relay loops on
+//	        loopback sockets, both batch modes.
 //
-// Every case runs the real code on a canary-filled buffer and is compared with
-// a reference written from the wire formats (SIP022 UDP, RFC 1928 UDP request
-// header, Shadowsocks "none" address prefix) and the property statement.
-// Nothing is sampled: the hooks for padding length (vrand.Hook), salts
-// (vcrand) and the clock (vsched.SetClock) make every run identical.
+// Every case runs the real code (A, B: on a canary-filled buffer) and is
+// compared with a reference written from the wire formats (SIP022 UDP, RFC 1928
+// UDP request header, Shadowsocks "none" address prefix) and the property
+// statement.  Nothing is sampled: the hooks for padding length (vrand.Hook),
+// salts (vcrand) and the clock (vsched.SetClock) make every run identical.
+//
+// Process layout: the parent shards the units of parts A and B over one worker
+// process per core (the hooks are process-global) and runs part C in one more
+// process; results are merged in unit order, so verdict and counts do not
+// depend on the number of cores.
 package main
 
 import (
@@ -182,9 +189,9 @@ func codecByName(n string) codec {
 	return codec{}
 }
 
-// serverKindFor is the server configuration that talks to a client codec
-// directly: single-user for EIH 0, multi-user (one identity header) otherwise.
-// Clients with 2..3 identity headers reach it through reference relays that
+// Keys.  The server that talks to a client codec is single-user for EIH 0 and
+// multi-user (one identity header, iPSK = the client's last iPSK) otherwise;
+// clients with 2..3 identity headers reach it through reference relays that
 // peel one header each (peel).
 func pskFor(keyLen int, seed byte) []byte {
 	b := make([]byte, keyLen)
@@ -466,7 +473,7 @@ func newServerEnd(c codec, mtu int, policy string, maxClientHR zerocopy.Headroom
 	sc := service.ServerConfig{
 		Name:         "srv-" + c.Name,
 		Protocol:     c.protocol(),
-		UDPListeners: []service.UDPListenerConfig{{ListenerConfig: service.ListenerConfig{Network: "udp", Address: "127.0.0.1:0"}}},
+		UDPListeners: []service.UDPListenerConfig{{ListenerConfig: service.ListenerConfig{Network: "udp", Address: "127.0.0.1:0"}, UDPPerfConfig: service.UDPPerfConfig{BatchMode: srvBatch}}},
 		MTU:          mtu,
 	}
 	switch c.Kind {
@@ -482,7 +489,7 @@ func newServerEnd(c codec, mtu int, policy string, maxClientHR zerocopy.Headroom
 		sc.TunnelRemoteAddress = tunnel
 		sc.TunnelUDPTargetOnly = targetOnly
 	}
-	if err := sc.Initialize(nil, lcc, stats.Config{}, nil, nop, 0); err != nil {
+	if err := sc.Initialize(nil, lcc, stats.Config{}, srvRouter, nop, 0); err != nil {
 		harness.Fatal("server config %s: %v", c.Name, err)
 	}
 	svc, err := sc.UDPRelay(nop, maxClientHR)
@@ -1211,7 +1218,9 @@ func (r *runner) runAS2C() {
 // ---------------------------------------------------------------------------
 // Part B: relay worlds
 
-// downstreamCodec is the client codec that talks to a relay server codec.
+// relayWorld is one relay (server codec S, client codec C) with the two outer
+// ends the harness drives: a downstream client speaking S and an upstream
+// server speaking C.
 type relayWorld struct {
 	S, C      codec
 	D         *clientEnd // downstream client (nil when the relay server is "direct")
@@ -1300,7 +1309,8 @@ func (w *relayWorld) relay(tunnel conn.Addr, targetOnly bool) *serverEnd {
 	return s
 }
 
-// ingressHook makes the non-relay endpoints pad to the maximum when they pad.
+// withHookChoice runs f with another padding answer (the outer ends pad to the
+// maximum when their policy pads) and restores the hook state of the case.
 func withHookChoice(choice int, f func()) {
 	saved := hook
 	hook.choice = choice
@@ -1648,14 +1658,15 @@ func buildTier(tier string) tierSpec {
 			}
 		}
 	}
-	partB := func(codecs []codec, mtuPairs [][2]int, lens, addrs, ports string, relayPolicies []string, layouts []string) {
+	allFams := []fam{fam4, fam4in6, fam6}
+	partB := func(codecs []codec, mtuPairs [][2]int, lens, addrs, ports string, relayPolicies []string, layouts []string, fams []fam) {
 		for _, s := range relayServers(codecs) {
 			for _, c := range codecs {
 				if s.Kind == kSS && c.Kind == kSS && s.KeyLen != c.KeyLen && s.KeyLen == 32 {
 					continue // key length does not interact across the relay; keep one mixed direction
 				}
 				for _, mp := range mtuPairs {
-					for f := fam4; f <= fam6; f++ {
+					for _, f := range fams {
 						upPols, downPols := []string{"NoPadding"}, []string{"NoPadding"}
 						if isSS(c) {
 							upPols = relayPolicies
@@ -1692,7 +1703,7 @@ func buildTier(tier string) tierSpec {
 	case "quick":
 		t.codecs = allCodecs[:7]
 		partA(t.codecs, []int{1280, 1500}, "all", "wide", "std", psModes)
-		partB(t.codecs, [][2]int{{1280, 1280}, {1500, 1500}, {1500, 1280}, {1280, 1500}}, "all", "std", "relay", policies, []string{"min", "max"})
+		partB(t.codecs, [][2]int{{1280, 1280}, {1500, 1500}, {1500, 1280}, {1280, 1500}}, "all", "std", "relay", policies, []string{"min", "max"}, allFams)
 	default:
 		t.codecs = allCodecs
 		small := []int{1280, 1492, 1500}
@@ -1702,10 +1713,11 @@ func buildTier(tier string) tierSpec {
 		partA(t.codecs[:7], []int{65535}, "edges:300", "std", "std", psModes)
 		partA(t.codecs[:7], []int{65535}, "all", "std", "one", []string{"headroom"})
 		partA(t.codecs[:7], []int{131072}, "edges:64", "std", "one", []string{"exact", "headroom", "generous"})
-		partB(t.codecs, [][2]int{{1280, 1280}, {1492, 1492}, {1500, 1500}, {1500, 1280}, {1280, 1500}, {1492, 1500}, {1500, 1492}}, "all", "std", "std", policies, []string{"min", "max"})
-		partB(t.codecs[:7], [][2]int{{9000, 9000}, {9000, 1500}, {1500, 9000}}, "all", "std", "relay", []string{"PadPlainDNS", "PadAll"}, []string{"min", "max"})
-		partB(t.codecs[:7], [][2]int{{65535, 65535}, {65535, 1500}, {1280, 65535}}, "edges:300", "std", "relay", []string{"PadPlainDNS", "PadAll"}, []string{"min", "max"})
-		partB(t.codecs[:7], [][2]int{{1500, 1500}}, "edges:40", "alldom", "one", []string{"PadAll"}, []string{"min", "max"})
+		partB(t.codecs, [][2]int{{1280, 1280}, {1492, 1492}, {1500, 1500}, {1500, 1280}, {1280, 1500}, {1492, 1500}, {1500, 1492}}, "all", "std", "std", policies, []string{"min", "max"}, allFams)
+		partB(t.codecs[:7], [][2]int{{9000, 9000}, {9000, 1500}, {1500, 9000}}, "all", "std", "relay", []string{"PadPlainDNS", "PadAll"}, []string{"min", "max"}, allFams)
+		partB(t.codecs[:7], [][2]int{{65535, 65535}, {65535, 1500}, {1280, 65535}}, "edges:300", "std", "relay", []string{"PadPlainDNS", "PadAll"}, []string{"min", "max"}, allFams)
+		partB(t.codecs[:7], [][2]int{{1500, 1500}}, "edges:40", "alldom", "one", []string{"PadAll"}, []string{"min", "max"}, allFams)
+		partB(t.codecs[:7], [][2]int{{65535, 65535}}, "all", "ip", "one", []string{"PadAll"}, []string{"min"}, []fam{fam4})
 	}
 	return t
 }
@@ -1806,12 +1818,57 @@ func reproduces(tier string, v vrec) bool {
 	return false
 }
 
+func liveReproduces(tier string, inst liveInst, sig string) bool {
+	outs, crashed, _ := runLivePart(tier, &inst, 0)
+	if crashed != nil {
+		return false
+	}
+	for _, o := range outs {
+		for _, v := range o.Viols {
+			if v.Sig == sig {
+				return true
+			}
+		}
+	}
+	return false
+}
+
 func replayMain(c *harness.Check) {
 	rec, err := harness.ReplayFile(c.Replay)
 	if err != nil {
 		harness.Fatal("%v", err)
 	}
 	tier, _ := rec["tier"].(string)
+	if part, _ := rec["part"].(string); part == "C-live" {
+		var inst liveInst
+		ib, _ := json.Marshal(rec["inst"])
+		if err := json.Unmarshal(ib, &inst); err != nil {
+			harness.Fatal("replay instance: %v", err)
+		}
+		want, _ := rec["signature"].(string)
+		fmt.Printf("replaying instance {%s}\n", inst)
+		outs, crashed, st := runLivePart(tier, &inst, 0)
+		if crashed != nil {
+			fmt.Printf("VIOLATION property=C05 replay=%s\n  signature: %s\n  the process running the relay died: %s [%s]\n", c.Replay, crashSignature(st), panicLine(st), crashFrames(st))
+			os.Exit(1)
+		}
+		for _, o := range outs {
+			for _, v := range o.Viols {
+				if v.Sig == want || want == "" {
+					fmt.Printf("VIOLATION property=C05 replay=%s\n  signature: %s\n  %s\n", c.Replay, v.Sig, v.What)
+					os.Exit(1)
+				}
+			}
+		}
+		for _, o := range outs {
+			for _, v := range o.Viols {
+				fmt.Printf("VIOLATION property=C05 replay=%s\n  signature: %s (recorded: %s)\n  %s\n", c.Replay, v.Sig, want, v.What)
+				os.Exit(1)
+			}
+		}
+		fmt.Println("no violation on replay")
+		os.Exit(0)
+	}
 	u, iord, sig := unitOf(rec)
 	ord := float64(iord)
 	t := buildTier(tier)
@@ -1837,7 +1894,21 @@ func main() {
 	if !flag.Parsed() {
 		flag.Parse()
 	}
-	if w := flag.Lookup("worker").Value.String(); w != "" {
+	switch w := flag.Lookup("worker").Value.String(); w {
+	case "":
+	case "c05live":
+		var only *liveInst
+		if sh := flag.Lookup("shard").Value.String(); strings.HasPrefix(sh, "{") {
+			only = &liveInst{}
+			if err := json.Unmarshal([]byte(sh), only); err != nil {
+				harness.Fatal("bad live instance %q: %v", sh, err)
+			}
+		}
+		from := 0
+		fmt.Sscanf(flag.Lookup("bound").Value.String(), "%d", &from)
+		liveWorkerMain(flag.Lookup("param").Value.String(), only, from)
+		return
+	default:
 		workerMain(flag.Lookup("param").Value.String(), flag.Lookup("shard").Value.String())
 		return
 	}
@@ -1877,6 +1948,15 @@ func main() {
 			}
 		}(i)
 	}
+	var (
+		liveOuts    []*liveOut
+		liveCrashes []liveCrash
+	)
+	wg.Add(1)
+	go func() {
+		defer wg.Done()
+		liveOuts, liveCrashes = runLiveAll(c.Tier)
+	}()
 	wg.Wait()
 
 	type agg struct {
@@ -1926,6 +2006,47 @@ func main() {
 		}
 		if ur.Sample != nil && (idx%97 == 0 || u.Part[0] == 'B' && idx%89 == 0) {
 			c.Sample(ur.Sample)
+		}
+	}
+	// part C
+	{
+		la := &agg{outcomes: map[string]int64{}}
+		for _, o := range liveOuts {
+			la.units++
+			la.cases += o.Cases
+			la.ops += o.Ops
+			for k, v := range o.Outcomes {
+				la.outcomes[k] += v
+				c.Distinct(o.Inst.String()+"|"+k, true)
+			}
+			totalCases += o.Cases
+			totalOps += o.Ops
+			if o.Capped != "" {
+				c.Cap(o.Capped)
+			}
+			for _, v := range o.Viols {
+				if confirmed[v.Sig] {
+					continue
+				}
+				confirmed[v.Sig] = true
+				if !liveReproduces(c.Tier, o.Inst, v.Sig) {
+					harness.Fatal("live violation %q did not reproduce on a re-run of {%s}: %s", v.Sig, o.Inst, v.What)
+				}
+				c.Violation(v.Sig, v.What, v.Replay)
+			}
+		}
+		for _, cr := range liveCrashes {
+			sig := crashSignature(cr.stderr)
+			c.Violation(sig, fmt.Sprintf("the process running the relay died: %s [%s]; instance {%s}", panicLine(cr.stderr), crashFrames(cr.stderr), cr.inst),
+				map[string]any{"tier": c.Tier, "part": "C-live", "inst": cr.inst, "signature": sig})
+		}
+		if n := len(liveInstances(c.Tier)); len(liveOuts)+len(liveCrashes) < n {
+			c.Cap(fmt.Sprintf("part C: %d of %d instances run (stopped after %d crashes)", len(liveOuts), n, len(liveCrashes)))
+		}
+		parts["C-live"] = la
+		if len(liveOuts) > 0 {
+			o := liveOuts[len(liveOuts)/2]
+			c.Sample(map[string]any{"unit": o.Inst.String(), "cases": o.Cases, "outcomes": o.Outcomes, "result": "every boundary payload either arrived unchanged on the far side of the running relay or was dropped exactly when the reference says it cannot fit"})
 		}
 	}
 	if skipped > 0 {
